@@ -60,6 +60,20 @@ func main() {
 		}
 		return
 	}
+	if *dumpfn == "ROLES" {
+		w := loadWorld(*repo)
+		n := 0
+		for _, ra := range roleAssignments(w.RepoFuncs("compose", "schema", "internal", "flow", "callbacks", "components", "utils")) {
+			n++
+			mark := "same "
+			if opposite(ra.dstRole, ra.srcRole) {
+				mark = "CROSS"
+			}
+			fmt.Printf("%s %s | %s <- %s | %s\n", mark, w.fname(origin(ra.fn)), ra.dst, ra.src, w.pos(ra.at.Pos()))
+		}
+		fmt.Println(n, "role-carrying assignments")
+		return
+	}
 	if *dumpfn == "LIST" {
 		w := loadWorld(*repo)
 		for _, f := range w.RepoFuncs() {
